@@ -753,14 +753,22 @@ var verifC24KnownTypes = map[reflect.Type]string{
 }
 
 func verifC24JSONEquiv(a, b []byte) bool {
-	var x, y any
-	if len(a) == 0 && len(b) == 0 {
+	if bytes.Equal(bytes.TrimSpace(a), bytes.TrimSpace(b)) {
 		return true
 	}
-	if json.Unmarshal(a, &x) != nil || json.Unmarshal(b, &y) != nil {
-		return false
+	// compare structure with numbers kept as their literal text (1E400 does not fit a float64)
+	parse := func(raw []byte) (any, bool) {
+		d := json.NewDecoder(bytes.NewReader(raw))
+		d.UseNumber()
+		var v any
+		if err := d.Decode(&v); err != nil {
+			return nil, false
+		}
+		return v, true
 	}
-	return reflect.DeepEqual(x, y)
+	x, okx := parse(a)
+	y, oky := parse(b)
+	return okx && oky && reflect.DeepEqual(x, y)
 }
 
 func verifC24MethodAndID(msg any) (method, id string, isRequest bool) {
